@@ -1,4 +1,5 @@
 """C07 — a program that passes checking never fails or misbehaves at run time."""
+from props import C19
 import re
 from props.common_prog import judge_prog
 
@@ -42,4 +43,6 @@ def streams(tier, seed):
         out.append({"name": "prog-" + p, "stream": "prog", "count": 120 if q else 4000, "extra": (p,), "judge": judge})
     # programs with one planted fault: what "passes checking" means is part of the property
     out.append({"name": "prog-fault", "stream": "prog-fault", "count": 400 if q else 15000, "judge": judge})
+    # what the user sees goes through the command line and the two files: the real binary on accepted, rejected, big, not-UTF-8, bare-CR files, good and malformed images, all options and TIMEOUT forms (as in C19)
+    out.append({"name": "cli", "stream": "cli", "count": 200 if q else 5000, "pygen": C19.pygen, "judge": C19.judge})
     return out
